@@ -118,8 +118,12 @@ Record nvariants := {
 }.
 Definition ncurrent := {| blksize_drop_over_max := false; tsize_ignores_pos := false |}.
 
-Record limits := { max_bs : N; max_tmo : N; default_tmo : N }.
-Record negotiated := { n_bs : N; n_tmo : N; n_oack : list (str * str) }.
+(* Times are in clock ticks of 1/1024 s: the server's default_timeout and max_timeout are numbers of
+   seconds that may be fractional (floats; TftpServer clamps them but does not round), e.g. 1.5 s =
+   1536 ticks.  A timeout OPTION is a whole number of seconds n, used as n * 1024 ticks. *)
+Definition TICKS_PER_SECOND : N := 1024.
+Record limits := { max_bs : N; max_tmo : N (* ticks *); default_tmo : N (* ticks *) }.
+Record negotiated := { n_bs : N; n_tmo : N (* ticks *); n_oack : list (str * str) }.
 
 Definition negotiate (nv : nvariants) (lim : limits) (netascii : bool) (k : stream_kind)
            (opts : list (str * str)) : negotiated :=
@@ -139,7 +143,8 @@ Definition negotiate (nv : nvariants) (lim : limits) (netascii : bool) (k : stre
   let '(tm, a2) :=
     match dict_get o (lit "timeout") with
     | Some s => match positive_int s with
-                | Some n => if (n <=? max_tmo lim) && (1 <=? n) then (n, [(lit "timeout", dec n)])
+                | Some n => if (n * TICKS_PER_SECOND <=? max_tmo lim) && (1 <=? n)
+                            then (n * TICKS_PER_SECOND, [(lit "timeout", dec n)])
                             else (default_tmo lim, [])
                 | None => (default_tmo lim, [])
                 end
